@@ -132,7 +132,8 @@ def wl_expansion(ctx, rng, case):
     case.desc = dict(cfg.desc(), n_keys=len(keys), kind="auto-expansion on tiny tables" if not explicit else "explicit expansions, auto_expand off")
     for op in ops:
         case.op(*op)
-    ex, stats = explore_case(ctx, rng, case, cfg, keys, ops, 600 if ctx.tier == "quick" else 30000, extra=60)
+    # (the explicit-expansion histories are long and branch at every failing rebuild: a smaller leaf cap in the thorough tier keeps a shard within its budget)
+    ex, stats = explore_case(ctx, rng, case, cfg, keys, ops, 600 if ctx.tier == "quick" else (2000 if explicit else 30000), extra=60)
     case.nontrivial = stats["capacity_changes"] > 0
     if stats["capacity_changes"]:
         ctx.count("cases_with_expansion")
